@@ -104,4 +104,4 @@ def run(ctx, case):
             content = "\n".join(lines).encode("shift_jis")
         except UnicodeEncodeError:
             return
-        fileio.check_read_file(ctx, "C04", BMSMap, content, args=(cfg,), read_arg=[ln.strip() for ln in lines])
+        fileio.check_read_file(ctx, "C04", BMSMap, content, args=(cfg,), read_arg=[ln.strip() for ln in lines], crlf=bool(ctx.cur_k is not None and ctx.cur_k % 2))
